@@ -173,7 +173,16 @@ pub fn judge(expected: &Outcome, observed: &Observed, ranges: &Ranges, attr_rang
     let mut observed_ok = false;
     let mut nleaves = 0;
     match (expected, observed) {
-        (_, Observed::Panic { msg, at }) => add("C07", format!("panic:{}", vfcommon::short_loc(at)), format!("panicked: {msg} at {at}")),
+        (_, Observed::Panic { msg, at }) => {
+            // panics inside generated code are identified by their message (line numbers of a
+            // generated file mean nothing), panics inside darling by file:line
+            let class = if at.contains("shard") || !at.contains("/") {
+                format!("panic:generated-code:{}", msg.split_whitespace().take(5).collect::<Vec<_>>().join("_"))
+            } else {
+                format!("panic:{}", vfcommon::short_loc(at))
+            };
+            add("C07", class, format!("panicked: {msg} at {at}"))
+        }
         (_, Observed::Died(s)) => add("C07", "driver-died".into(), format!("the driver process died: {s}")),
         (_, Observed::Unparsed(_)) => {}
         (Outcome::Ok(want), Observed::Ok(got)) => {
